@@ -257,6 +257,27 @@ async fn do_pub<P: MetricPublisher>(p: &P, mode: &str, ms: Vec<PublishMetric>) -
     }
 }
 
+type HeldFut = std::pin::Pin<Box<dyn std::future::Future<Output = Result<(), PublishError>> + Send>>;
+
+/// `rule hold <spec>`: the publish future is CREATED now (the trait method is called) but not polled
+/// until the matching `pub <spec>` stimulus (or never: `rule drophold <spec>`). An `async fn` body
+/// runs at the first poll, so on a correct library a held future has done nothing yet: sequence
+/// numbers must be allocated when the message is handed over, not when the future is made.
+fn make_pub<P: MetricPublisher + Send + Sync + 'static>(p: P, mode: &str, ms: Vec<PublishMetric>) -> HeldFut {
+    let p: &'static P = Box::leak(Box::new(p));
+    if ms.len() == 1 && (mode == "try" || mode == "blk") {
+        let m = ms.into_iter().next().unwrap();
+        return if mode == "try" { Box::pin(p.try_publish_metric(m)) } else { Box::pin(p.publish_metric(m)) };
+    }
+    match mode {
+        "try" => Box::pin(p.try_publish_metrics_unsorted(ms)),
+        "blk" => Box::pin(p.publish_metrics_unsorted(ms)),
+        "trysort" => Box::pin(p.try_publish_metrics(ms)),
+        "blksort" => Box::pin(p.publish_metrics(ms)),
+        x => panic!("bad publish mode {}", x),
+    }
+}
+
 fn metrics(n: usize, xk: u32) -> Vec<PublishMetric> {
     // descending timestamps, so that the sorting variants have something to do
     (0..n)
@@ -979,6 +1000,8 @@ pub struct Sess {
     /// `rule mset <k>`: the extra metric births register from now on / the one the node's latest birth registered
     xwant: Arc<AtomicU32>,
     node_x: Arc<AtomicU32>,
+    /// `rule hold <spec>`: publish futures created and not yet polled, by their `pub` spec
+    held: Vec<(String, HeldFut)>,
 }
 
 impl Sess {
@@ -1030,6 +1053,7 @@ impl Sess {
             first_line: String::new(),
             xwant,
             node_x,
+            held: vec![],
         }
     }
 
@@ -1183,6 +1207,27 @@ impl Sess {
         v
     }
 
+    fn take_held(&mut self, spec: &str) -> Option<HeldFut> {
+        let i = self.held.iter().position(|(s, _)| s == spec)?;
+        Some(self.held.remove(i).1)
+    }
+
+    /// `rule hold node <mode> n=<k>` / `rule hold dev <d> <mode> n=<k>`
+    fn hold(&mut self, w: &[&str]) {
+        let spec = w[2..].join(" ");
+        let n: usize = kv(w, "n").unwrap().parse().unwrap();
+        let f = if w[2] == "node" {
+            make_pub(self.node.clone(), w[3], metrics(n, self.node_x.load(Ordering::SeqCst)))
+        } else {
+            let d: u32 = w[3].parse().unwrap();
+            match self.devs.get(&d) {
+                Some(h) => make_pub(h.clone(), w[4], metrics(n, 0)),
+                None => return,
+            }
+        };
+        self.held.push((spec, f));
+    }
+
     fn spawn_pub_node(&mut self, mode: String, n: usize) {
         let j = self.ucount;
         self.ucount += 1;
@@ -1190,9 +1235,13 @@ impl Sess {
         let hub = self.hub.clone();
         let h = self.node.clone();
         let xk = self.node_x.load(Ordering::SeqCst);
+        let held = self.take_held(&format!("node {} n={}", mode, n));
         tokio::spawn(async move {
             let mut g = Guard { hub: hub.clone(), label: format!("U{}", j), done: false };
-            let r = do_pub(&h, &mode, metrics(n, xk)).await;
+            let r = match held {
+                Some(f) => f.await,
+                None => do_pub(&h, &mode, metrics(n, xk)).await,
+            };
             g.done = true;
             hub.note(format!("U{}:{}", j, match r {
                 Ok(()) => "ok".to_string(),
@@ -1213,9 +1262,13 @@ impl Sess {
         self.ucount += 1;
         self.cur_j = Some(j);
         let hub = self.hub.clone();
+        let held = self.take_held(&format!("dev {} {} n={}", d, mode, n));
         tokio::spawn(async move {
             let mut g = Guard { hub: hub.clone(), label: format!("U{}", j), done: false };
-            let r = do_pub(&h, &mode, metrics(n, 0)).await;
+            let r = match held {
+                Some(f) => f.await,
+                None => do_pub(&h, &mode, metrics(n, 0)).await,
+            };
             g.done = true;
             hub.note(format!("U{}:{}", j, match r {
                 Ok(()) => "ok".to_string(),
@@ -1303,6 +1356,9 @@ impl Sess {
                         _ => {
                             self.node.unregister_device_named(&format!("d{}", d)).await;
                             self.devs.remove(&d);
+                            // no publishes through the handle of a removed incarnation, held ones included
+                            let pre = format!("dev {} ", d);
+                            self.held.retain(|(s, _)| !s.starts_with(&pre));
                         }
                     },
                 }
@@ -1343,6 +1399,10 @@ impl Sess {
             }
             // closed loop: from the next birth on the managers register the extra metric `x<k>` (0 = none).
             // A policy line without effect for the model (it is rendered `rule mset <k>`); no observation.
+            "rule" if w[1] == "hold" => self.hold(w),
+            "rule" if w[1] == "drophold" => {
+                let _ = self.take_held(&w[2..].join(" "));
+            }
             "rule" if w[1] == "mset" => {
                 let k: u32 = w[2].parse().unwrap();
                 assert!(k <= MSET_MAX, "mset {} out of range", k);
@@ -1563,6 +1623,15 @@ fn scripted(out: &mut Out) {
         "rule DDATA park 2", "pub dev 1 blk n=1", "pub dev 2 blk n=1", "pub node try n=1", "resolve-oldest err", "resolve-oldest ok",
         "rule * rej 3", "pub node try n=1", "disable 2", "drebirth 1", "pub node blk n=1", "nrebirth", "pub node try n=1",
     ]);
+    // C02: a sequence number is taken when the message is handed over, not when the publish future is
+    // made: futures created early (`rule hold`), polled late or never, interleaved with other publishers
+    run(out, 0, "c02-held-futures", &[
+        "online", "reg 1", "enable 1", "rule hold node blk n=2", "pub dev 1 try n=1", "pub node blk n=2", "rule hold node try n=1",
+        "rule hold dev 1 blk n=1", "pub node trysort n=2", "pub dev 1 blk n=1", "pub node try n=1", "rule hold node blksort n=3",
+        "rule drophold node blksort n=3", "pub dev 1 try n=1", "rule hold dev 1 trysort n=2", "rule drophold dev 1 trysort n=2",
+        "pub node blk n=1", "rule hold node blk n=1", "nrebirth", "pub node blk n=1", "rule hold dev 1 try n=1", "offline", "online",
+        "pub dev 1 try n=1", "pub node try n=1",
+    ]);
     // C03: wills and bdSeq
     run(out, 0, "c03-bdseq", &[
         "offline", "offline", "online", "online", "nrebirth", "ncmd rb=1 ts=1", "offline", "offline", "online", "rule SUB rej 1",
@@ -1713,8 +1782,19 @@ fn random_case(out: &mut Out, rng: &mut Rng) {
     }
     let mut after_cancel = 0u64;
     let mut k = 0;
+    // publish futures made early (`rule hold <spec>`), to be polled by a later `pub <spec>` or dropped
+    let mut pending: Vec<String> = vec![];
     while k < len {
         k += 1;
+        if !pending.is_empty() && rng.chance(1, 6) {
+            let spec = pending.remove(rng.below(pending.len() as u64) as usize);
+            if rng.chance(4, 5) {
+                c.stim(&format!("pub {}", spec));
+            } else {
+                c.stim(&format!("rule drophold {}", spec));
+            }
+            continue;
+        }
         if Some(k) == cancel_at && !c.sess.cancelled {
             c.stim("cancel");
             match rng.below(3) {
@@ -1801,7 +1881,18 @@ fn random_case(out: &mut Out, rng: &mut Rng) {
                 format!("cbrelease {}", rng.pick(&a))
             }
         };
+        if let Some(spec) = s.strip_prefix("pub ") {
+            if rng.chance(1, 6) && !pending.iter().any(|p| p == spec) {
+                c.stim(&format!("rule hold {}", spec));
+                pending.push(spec.to_string());
+                c.out.count("held-future");
+                continue;
+            }
+        }
         c.stim(&s);
+    }
+    for spec in pending {
+        c.stim(&format!("rule drophold {}", spec));
     }
     c.out.count("case:random");
     c.finish();
@@ -1836,11 +1927,22 @@ fn long_seq_case(out: &mut Out, rng: &mut Rng, publishes: u64) {
             }
             _ => {
                 let mode = *rng.pick(&MODES);
-                if rng.chance(1, 2) {
-                    c.stim(&format!("pub node {} n={}", mode, rng.range(1, 3)));
+                let spec = if rng.chance(1, 2) {
+                    format!("node {} n={}", mode, rng.range(1, 3))
                 } else {
-                    c.stim(&format!("pub dev {} {} n={}", rng.range(1, 3), mode, rng.range(1, 3)));
+                    format!("dev {} {} n={}", rng.range(1, 3), mode, rng.range(1, 3))
+                };
+                if rng.chance(1, 25) {
+                    // the future is made now, another publisher goes first, then it is polled (or dropped)
+                    c.stim(&format!("rule hold {}", spec));
+                    c.stim(&format!("pub dev {} try n=1", rng.range(1, 3)));
+                    done += 1;
+                    if rng.chance(1, 4) {
+                        c.stim(&format!("rule drophold {}", spec));
+                        continue;
+                    }
                 }
+                c.stim(&format!("pub {}", spec));
                 done += 1;
             }
         }
